@@ -21,6 +21,7 @@ def defs(epoch=1, sessions=64):
 BINARIES = {
     # epoch period 1 ms everywhere so that reclamation is live during the workloads
     "seq-asan": {"flavor": "asan", "sources": SEQ_SOURCES, "defines": defs()},
+    "seq-plain": {"flavor": "plain", "sources": SEQ_SOURCES, "defines": defs()},
     "unit-asan": {"flavor": "asan", "sources": UNIT_SOURCES, "defines": defs()},
     "unit-plain": {"flavor": "plain", "sources": UNIT_SOURCES, "defines": defs()},
     "conc-plain": {"flavor": "plain", "sources": CONC_SOURCES, "defines": defs()},
@@ -34,9 +35,9 @@ BINARIES = {
 }
 
 
-def run(name, binary, timeout=600, repeat=1, leaks=False, hang_is_violation=False, **args):
+def run(name, binary, timeout=600, repeat=1, leaks=False, hang_is_violation=False, wrapper=None, **args):
     return {"name": name, "bin": binary, "args": args, "timeout": timeout, "repeat": repeat, "leaks": leaks,
-            "hang_is_violation": hang_is_violation}
+            "hang_is_violation": hang_is_violation, "wrapper": wrapper}
 
 
 CHECKS = {
@@ -51,13 +52,15 @@ CHECKS = {
     "C02": {
         "title": "single-session behaviour equals an ordered byte-string map",
         "quick": [run("seq_map", "seq-asan", mode="map", prop="C02", programs=1500, ops=300, repeat=4)],
-        "thorough": [run("seq_map", "seq-asan", mode="map", prop="C02", programs=60000, ops=400, huge=2, repeat=16, timeout=3400)],
+        "thorough": [run("seq_map_memcheck", "seq-plain", mode="map", prop="C02", programs=400, ops=250, wrapper="memcheck", repeat=4, timeout=3400),
+                     run("seq_map", "seq-asan", mode="map", prop="C02", programs=60000, ops=400, huge=2, repeat=16, timeout=3400)],
         "parallel": {"quick": 4, "thorough": 16},
     },
     "C03": {
         "title": "quiescent range scan equals the interval content",
         "quick": [run("seq_scan", "seq-asan", mode="scan", prop="C03", trees=600, scans=150, repeat=4)],
-        "thorough": [run("seq_scan", "seq-asan", mode="scan", prop="C03", trees=40000, scans=200, repeat=16, timeout=3400)],
+        "thorough": [run("seq_scan_memcheck", "seq-plain", mode="scan", prop="C03", trees=150, scans=80, wrapper="memcheck", repeat=4, timeout=3400),
+                     run("seq_scan", "seq-asan", mode="scan", prop="C03", trees=40000, scans=200, repeat=16, timeout=3400)],
         "parallel": {"quick": 4, "thorough": 16},
     },
     "C04": {
@@ -71,7 +74,8 @@ CHECKS = {
     "C05": {
         "title": "node-version sets detect later inserts",
         "quick": [run("seq_phantom", "seq-asan", mode="phantom", prop="C05", trees=600, reads=14, cands=10, repeat=4)],
-        "thorough": [run("seq_phantom", "seq-asan", mode="phantom", prop="C05", trees=30000, reads=20, cands=14, repeat=16, timeout=3400)],
+        "thorough": [run("seq_phantom_memcheck", "seq-plain", mode="phantom", prop="C05", trees=150, reads=10, cands=8, wrapper="memcheck", repeat=4, timeout=3400),
+                     run("seq_phantom", "seq-asan", mode="phantom", prop="C05", trees=30000, reads=20, cands=14, repeat=16, timeout=3400)],
         "parallel": {"quick": 4, "thorough": 16},
     },
     "C06": {
@@ -117,7 +121,8 @@ CHECKS = {
                   run("conc_iscan_layers", "conc-plain", mode="scan", cursor=1, scenario="layers", prop="C10", rounds=400),
                   run("conc_iscan_asan", "conc-asan", mode="scan", cursor=1, scenario="flat", prop="C10", rounds=150),
                   run("conc_phantom_iscan", "conc-plain", mode="phantom", cursor=1, prop="C10", rounds=1500)],
-        "thorough": [run("seq_iscan", "seq-asan", mode="iscan", prop="C10", trees=30000, cursors=100, steppers=40, repeat=12, timeout=3400),
+        "thorough": [run("seq_iscan_memcheck", "seq-plain", mode="iscan", prop="C10", trees=150, cursors=40, steppers=10, wrapper="memcheck", repeat=4, timeout=3400),
+                     run("seq_iscan", "seq-asan", mode="iscan", prop="C10", trees=30000, cursors=100, steppers=40, repeat=12, timeout=3400),
                      run("conc_iscan_single_layer", "conc-plain", mode="scan", cursor=1, scenario="flat", prop="C10", rounds=40000, repeat=4, timeout=3400),
                      run("conc_iscan_layers", "conc-plain", mode="scan", cursor=1, scenario="layers", prop="C10", rounds=20000, repeat=2, timeout=3400),
                      run("conc_iscan_asan", "conc-asan", mode="scan", cursor=1, scenario="flat", prop="C10", rounds=6000, repeat=2, timeout=3400),
@@ -135,7 +140,8 @@ CHECKS = {
     "C12": {
         "title": "put reports exactly the borders whose version changed",
         "quick": [run("seq_nodeinfo", "seq-asan", mode="nodeinfo", prop="C12", programs=250, puts=150, repeat=4)],
-        "thorough": [run("seq_nodeinfo", "seq-asan", mode="nodeinfo", prop="C12", programs=12000, puts=200, repeat=16, timeout=3400)],
+        "thorough": [run("seq_nodeinfo_memcheck", "seq-plain", mode="nodeinfo", prop="C12", programs=60, puts=100, wrapper="memcheck", repeat=4, timeout=3400),
+                     run("seq_nodeinfo", "seq-asan", mode="nodeinfo", prop="C12", programs=12000, puts=200, repeat=16, timeout=3400)],
         "parallel": {"quick": 4, "thorough": 16},
     },
     "C13": {
@@ -143,7 +149,8 @@ CHECKS = {
         "quick": [run("seq_storage", "seq-asan", mode="storage", prop="C13", programs=400, ops=300, repeat=2),
                   run("conc_ddl_plain", "conc-plain", mode="ddl", prop="C13", races=2500),
                   run("conc_ddl_asan", "conc-asan", mode="ddl", prop="C13", races=400)],
-        "thorough": [run("seq_storage", "seq-asan", mode="storage", prop="C13", programs=20000, ops=400, repeat=12, timeout=3400),
+        "thorough": [run("seq_storage_memcheck", "seq-plain", mode="storage", prop="C13", programs=100, ops=200, wrapper="memcheck", repeat=2, timeout=3400),
+                     run("seq_storage", "seq-asan", mode="storage", prop="C13", programs=20000, ops=400, repeat=12, timeout=3400),
                      run("conc_ddl_plain", "conc-plain", mode="ddl", prop="C13", races=250000, repeat=3, timeout=3400),
                      run("conc_ddl_asan", "conc-asan", mode="ddl", prop="C13", races=30000, timeout=3400)],
         "parallel": {"quick": 2, "thorough": 4},
@@ -161,7 +168,8 @@ CHECKS = {
         "quick": [run("seq_value", "seq-asan", mode="value", prop="C15", chains=400),
                   run("conc_value_plain", "conc-plain", mode="value", prop="C15", reads=400000),
                   run("conc_value_asan", "conc-asan", mode="value", prop="C15", reads=60000)],
-        "thorough": [run("seq_value", "seq-asan", mode="value", prop="C15", chains=30000, big=1, repeat=4, timeout=3400),
+        "thorough": [run("seq_value_memcheck", "seq-plain", mode="value", prop="C15", chains=300, wrapper="memcheck", timeout=3400),
+                     run("seq_value", "seq-asan", mode="value", prop="C15", chains=30000, big=1, repeat=4, timeout=3400),
                      run("conc_value_plain", "conc-plain", mode="value", prop="C15", reads=50000000, repeat=2, timeout=3400),
                      run("conc_value_asan", "conc-asan", mode="value", prop="C15", reads=4000000, timeout=3400)],
         "parallel": {"quick": 1, "thorough": 2},
@@ -204,7 +212,8 @@ CHECKS = {
     "C20": {
         "title": "mem_usage equals an independent census",
         "quick": [run("seq_memusage", "seq-asan", mode="memusage", prop="C20", trees=500, snaps=25, repeat=4)],
-        "thorough": [run("seq_memusage", "seq-asan", mode="memusage", prop="C20", trees=40000, snaps=30, repeat=16, timeout=3400)],
+        "thorough": [run("seq_memusage_memcheck", "seq-plain", mode="memusage", prop="C20", trees=120, snaps=15, wrapper="memcheck", repeat=4, timeout=3400),
+                     run("seq_memusage", "seq-asan", mode="memusage", prop="C20", trees=40000, snaps=30, repeat=16, timeout=3400)],
         "parallel": {"quick": 4, "thorough": 16},
     },
 }
